@@ -154,6 +154,14 @@ func probes() []probe {
 			proto.SetExtension(m, v2Exts[50101], "ext")
 			return m
 		}, func() interface{} { return &descriptorpb.MessageOptions{} }, "google"},
+		// proto2 messages with an unset required field (nested): the owning runtimes return an error, the pointer-based ones
+		// together with the bytes of the partial message
+		{"gogodesc.UninterpretedOption-missing-required", func() interface{} {
+			return &gogodesc.UninterpretedOption{Name: []*gogodesc.UninterpretedOption_NamePart{{NamePart: str("x")}}, IdentifierValue: str("id")}
+		}, func() interface{} { return &gogodesc.UninterpretedOption{} }, "gogo"},
+		{"descriptorpb.UninterpretedOption-missing-required", func() interface{} {
+			return &descriptorpb.UninterpretedOption{Name: []*descriptorpb.UninterpretedOption_NamePart{{NamePart: proto.String("x")}}, IdentifierValue: proto.String("id")}
+		}, func() interface{} { return &descriptorpb.UninterpretedOption{} }, "google"},
 		{"LegacyV1", func() interface{} {
 			return &LegacyV1{A: i32(-7), S: str("legacy"), R: []int64{1, -1, 1 << 40}, B: []byte{9}}
 		}, func() interface{} { return &LegacyV1{} }, "googlev1"},
@@ -284,7 +292,7 @@ func streamC11(r *hx.Rng) {
 		m := p.mk()
 		cs := "probe=" + p.name
 		obs := dispatchObs(m, p.empty)
-		if !strings.Contains(p.name, "invalid-utf8") {
+		if !strings.Contains(p.name, "invalid-utf8") && !strings.Contains(p.name, "missing-required") {
 			// (a value the owning runtime itself refuses to marshal: the forwarding is exercised by the oracle below,
 			// the dispatch model says nothing about the runtime's answer)
 			sink.Add("dispatch", "S CAPS "+capsOf(m), obs, true)
@@ -316,6 +324,15 @@ func streamC11(r *hx.Rng) {
 			if cerr != nil && oerr != nil {
 				// the owning runtime refuses to marshal this value (invalid UTF-8 in a proto3 string): so must the shim
 				sink.Count("both-refuse-marshal")
+				// ... and hand back what the runtime hands back with the error (gogo / golang-v1 return the bytes of the
+				// partial message together with a RequiredNotSetError)
+				if len(cb) != len(ob) {
+					fail("Marshal returns an error like the owning runtime but not the bytes the runtime returns with it", cs, hx.B(ob), hx.B(cb), "shim-marshal-partial")
+				}
+				var codec csproto.GrpcCodec
+				if gb, gerr := codec.Marshal(m); gerr == nil || len(gb) != len(ob) {
+					fail("GrpcCodec.Marshal differs from the owning runtime's Marshal on a value the runtime refuses", cs, hx.B(ob), hx.B(gb)+fmt.Sprint(gerr), "shim-marshal-partial")
+				}
 				if tx, err := csproto.MarshalText(m); err != nil || strings.Join(strings.Fields(tx), " ") != strings.Join(strings.Fields(ownerText(p.owner, m)), " ") {
 					fail("MarshalText differs from the owning runtime's text format", cs, ownerText(p.owner, m), tx+fmt.Sprint(err), "shim-text")
 				}
@@ -486,6 +503,7 @@ func streamC11(r *hx.Rng) {
 	streamEqualNaN()
 	streamFreshMarshalAndDynamic()
 	streamMixedRace(ps)
+	streamFirstUse(ps)
 	// first-use race: G goroutines classify a fresh type at once (type cache emptied through the verif hook)
 	trials := 200
 	if thorough {
@@ -524,6 +542,66 @@ func streamC11(r *hx.Rng) {
 
 // goroutines classifying types of DIFFERENT runtimes at the same time (fresh cache and steady state): every answer
 // is the one a sequential call gives for that type
+// The classification of a TYPE is cached process-wide at its first use: it must not depend on which value of the type
+// (typed nil pointer, empty, populated) or which API call happened to see the type first.
+func streamFirstUse(ps []probe) {
+	apis := []struct {
+		name string
+		call func(v interface{})
+	}{
+		{"MsgType", func(v interface{}) { _ = csproto.MsgType(v) }},
+		{"Clone", func(v interface{}) { _ = csproto.Clone(v) }},
+		{"Equal", func(v interface{}) { _ = csproto.Equal(v, v) }},
+		{"Marshal", func(v interface{}) { _, _ = csproto.Marshal(v) }},
+		{"Size", func(v interface{}) { _ = csproto.Size(v) }},
+		{"MarshalText", func(v interface{}) { _, _ = csproto.MarshalText(v) }},
+		{"HasExtension", func(v interface{}) {
+			_ = csproto.RangeExtensions(v, func(interface{}, string, int32) error { return nil })
+		}},
+	}
+	for _, p := range ps {
+		if p.owner != "google" && p.owner != "gogo" && p.owner != "googlev1" {
+			continue
+		}
+		wantMT := p.owner
+		typedNil := reflect.Zero(reflect.TypeOf(p.empty())).Interface()
+		firsts := []struct {
+			name string
+			v    func() interface{}
+		}{{"typed-nil", func() interface{} { return typedNil }}, {"empty", p.empty}, {"populated", p.mk}}
+		for _, f := range firsts {
+			for _, a := range apis {
+				csproto.VerifResetMsgTypeCache()
+				cs := fmt.Sprintf("probe=%s first-use=%s(%s)", p.name, a.name, f.name)
+				hx.Inflight("C11 first use: " + cs)
+				_ = guard(func() string { a.call(f.v()); return "" })
+				sink.OracleN++
+				sink.Count("first-use-probe")
+				m := p.mk()
+				got := guard(func() string { return mtNames[csproto.MsgType(m)] })
+				if got != wantMT {
+					fail("the classification of a message type depends on which value / API call saw the type first", cs, wantMT, got, "shim-first-use")
+					continue
+				}
+				c := guard(func() string {
+					c := csproto.Clone(m)
+					if c == nil || !ownerEqual(p.owner, c, m) || !csproto.Equal(c, m) {
+						return "bad"
+					}
+					if _, err := csproto.MarshalText(m); err != nil {
+						return "text:" + err.Error()
+					}
+					return "ok"
+				})
+				if c != "ok" {
+					fail("Clone / Equal / MarshalText of a populated message fail after the type was first seen through another value", cs, "ok", c, "shim-first-use")
+				}
+			}
+		}
+	}
+	csproto.VerifResetMsgTypeCache()
+}
+
 func streamMixedRace(ps []probe) {
 	want := make([]csproto.MessageType, len(ps))
 	msgs := make([]interface{}, len(ps))
